@@ -103,7 +103,9 @@ def _run_part(P, part, tier, seed, rng, coq, agg):
     env = getattr(part, "ENV", None)
     violations = 0
     cases = part.generate(rng, tier)
-    model_out = C.run_sharded(C.MODEL_RUN, fam, cases, pid + "_m")
+    if hasattr(part, "prepare"):
+        part.prepare()
+    model_out = C.run_sharded(C.MODEL_RUN, getattr(part, "MODEL_FAM", fam), cases, pid + "_m")
     impl_out = C.run_sharded(C.KDB_RUN, fam, cases, pid + "_i", extra_env=env)
     by_id = {str(cid): lines for cid, lines in cases}
     same = getattr(part, "compare", lambda ls, m, i: m == i)
@@ -142,7 +144,7 @@ def _run_part(P, part, tier, seed, rng, coq, agg):
         rp = C.write_replay(pid, "f%d_v%d" % (fam, violations), {
             "property": pid, "kind": "monitor", "family": fam, "case": small,
             "readable": part.pretty(small), "impl_trace": o,
-            "model_trace": _one(C.MODEL_RUN, fam, small, pid + "_s"),
+            "model_trace": _one(C.MODEL_RUN, getattr(part, "MODEL_FAM", fam), small, pid + "_s"),
             "failed_clause": part.monitor(small, o)})
         print("VIOLATION property=%s replay=%s" % (pid, rp))
         violations += 1
@@ -155,7 +157,7 @@ def _run_part(P, part, tier, seed, rng, coq, agg):
         cid = unexplained[0]
 
         def differs(ls):
-            return not same(ls, _one(C.MODEL_RUN, fam, ls, pid + "_s"), _one(C.KDB_RUN, fam, ls, pid + "_s", env))
+            return not same(ls, _one(C.MODEL_RUN, getattr(part, "MODEL_FAM", fam), ls, pid + "_s"), _one(C.KDB_RUN, fam, ls, pid + "_s", env))
         small = shrink(part, by_id[cid], differs)
         # search the neighbourhood of the differing case for a concrete property failure
         found = None
@@ -180,7 +182,7 @@ def _run_part(P, part, tier, seed, rng, coq, agg):
                           "theorems %s are about a model that no longer predicts the code"
                           % (pid, len(unexplained), len(cases), ", ".join(coq["theorems"])),
                 "impl_trace": _one(C.KDB_RUN, fam, small, pid + "_s", env),
-                "model_trace": _one(C.MODEL_RUN, fam, small, pid + "_s")})
+                "model_trace": _one(C.MODEL_RUN, getattr(part, "MODEL_FAM", fam), small, pid + "_s")})
             print("VIOLATION property=%s replay=%s no-failing-input-found" % (pid, rp))
         violations += 1
     # ---- per-part evidence
@@ -233,7 +235,7 @@ def _replay(P, path):
     parts = getattr(P, "PARTS", None) or [P]
     part = next((x for x in parts if x.FAM == r.get("family")), parts[0])
     o = _one(C.KDB_RUN, part.FAM, lines, pid + "_r", getattr(part, "ENV", None))
-    m = _one(C.MODEL_RUN, part.FAM, lines, pid + "_r")
+    m = _one(C.MODEL_RUN, getattr(part, "MODEL_FAM", part.FAM), lines, pid + "_r")
     P = part
     ms = P.monitor(lines, o)
     print("case:", P.pretty(lines))
